@@ -5,7 +5,7 @@ import ast
 from ..core import RuleResult, need
 from ..cfg import cfg_of
 from ..flow import flow_of
-from ..astutil import (src, call_attr, call_name, compare_parts, is_name, path_of, walk_no_nested, attr_stores,
+from ..astutil import (src, call_attr, call_name, compare_parts, is_name, path_of, walk_no_nested, attr_stores, comparison_holding,
                        returns_of)
 from ..repo import dotted
 
@@ -177,17 +177,23 @@ def rule_z1(repo):
         # the name that is registered must be the name of the variable the body is opened with
         # (`v = Var(nm, ..)`): the original binder name differs from it whenever a variant was chosen
         opened = set()
-        for n in _region(cfg, test):
-            if n.kind == 'stmt':
-                for c in ast.walk(n.ast):
-                    if isinstance(c, ast.Call) and call_name(c) in ('Var', 'term.Var') and c.args and isinstance(c.args[0], ast.Name):
-                        opened.add(c.args[0].id)
-        for n in _region(cfg, test):
-            if n.kind == 'stmt':
-                for c in ast.walk(n.ast):
-                    if isinstance(c, ast.Call) and call_attr(c) in ('add', 'append') and isinstance(c.func.value, ast.Name) and c.args and \
-                            isinstance(c.args[0], ast.Name) and c.args[0].id in opened:
-                        reg.add(c.func.value.id)
+        # the statements of the branch, and of a sibling helper the branch calls to open the binder
+        stmts = [n.ast for n in _region(cfg, test) if n.kind == 'stmt']
+        siblings = dict(rec.parent.nested) if rec.parent is not None else {}
+        siblings.update(rec.nested)
+        for st in list(stmts):
+            for c in ast.walk(st):
+                if isinstance(c, ast.Call) and isinstance(c.func, ast.Name) and c.func.id in siblings and siblings[c.func.id] is not rec:
+                    stmts += [x for x in siblings[c.func.id].node.body]
+        for st in stmts:
+            for c in ast.walk(st):
+                if isinstance(c, ast.Call) and call_name(c) in ('Var', 'term.Var') and c.args and isinstance(c.args[0], ast.Name):
+                    opened.add(c.args[0].id)
+        for st in stmts:
+            for c in ast.walk(st):
+                if isinstance(c, ast.Call) and call_attr(c) in ('add', 'append') and isinstance(c.func.value, ast.Name) and c.args and \
+                        isinstance(c.args[0], ast.Name) and c.args[0].id in opened:
+                    reg.add(c.func.value.id)
         # only names registered before the body of the quantifier is translated
         return reg
     both = registrations(branch('is_forall', _is_method_test('is_forall'))) & registrations(branch('is_exists', _is_method_test('is_exists')))
@@ -418,11 +424,11 @@ def rule_s3(repo):
 
             def nonzero(e, pol, nm=d.id):
                 # `denom.is_zero is False` holds, or its negation leads away
-                cp = compare_parts(e)
-                if cp and cp[0] is ast.Is and path_of(cp[1]) == nm + '.is_zero' and isinstance(cp[2], ast.Constant) and cp[2].value is False:
-                    return pol
-                if cp and cp[0] in (ast.NotEq, ast.Eq) and is_name(cp[1], nm) and isinstance(cp[2], ast.Constant) and cp[2].value == 0:
-                    return pol if cp[0] is ast.NotEq else not pol
+                for op, a, b in comparison_holding(e, pol):
+                    if op is ast.Is and path_of(a) == nm + '.is_zero' and isinstance(b, ast.Constant) and b.value is False:
+                        return True
+                    if op is ast.NotEq and is_name(a, nm) and isinstance(b, ast.Constant) and b.value == 0:
+                        return True
                 return False
 
             def isnumber(e, pol, nm=d.id):
